@@ -164,3 +164,7 @@ Proof.
 Qed.
 
 End WithPrime.
+
+(* from here on the field operations are black boxes for conversion-based
+   tactics; vm_compute still evaluates them *)
+Global Opaque fadd fsub fmul fopp finv fdiv of_Z.
